@@ -49,7 +49,7 @@ def _field_of(p: ast.AST, child: ast.AST) -> Tuple[Optional[str], Optional[int]]
 
 
 def guards(node: ast.AST, stop: Optional[ast.AST] = None,
-           through_loops: bool = True) -> List[Tuple[ast.AST, bool]]:
+           through_loops: bool = True, siblings: bool = True) -> List[Tuple[ast.AST, bool]]:
     """Conditions (expr, polarity) under which `node` executes, innermost last.
 
     Syntax-directed: enclosing if/while/ifexp/boolop/comprehension conditions,
@@ -89,7 +89,7 @@ def guards(node: ast.AST, stop: Optional[ast.AST] = None,
         elif isinstance(p, ast.comprehension):
             pass
         # preceding siblings: the condition under which they fall through
-        if idx is not None and field in ("body", "orelse", "finalbody") and isinstance(
+        if siblings and idx is not None and field in ("body", "orelse", "finalbody") and isinstance(
             getattr(p, field, None), list
         ):
             block = getattr(p, field)
